@@ -73,6 +73,9 @@ OperandProgs(z) ==
     \cup { <<NS1(op, VF(<<63, 192, 0, 0>>))>> : op \in {10, 17, 49} }
     \cup { <<NMacroP(3, <<VF(<<191, 64, 0, 0>>), VD(5)>>)>>, <<NVvals(<<107>>, <<VF(<<63, 0, 0, 0>>), VX(<<1>>)>>)>> }
     \cup { <<NBn("h32", 60, Rep(32, x))>> : x \in {0, 171, 255} }
+    \* fixed-width operands of the wrong width are unencodable (alone and followed by instructions that would be swallowed)
+    \cup { <<NBn("h32", 60, Rep(n, 171))>> \o t : n \in {0, 1, 31, 33}, t \in {<<>>, <<TRUEOP, TRUEOP>>} }
+    \cup { <<NBn("f4", op, Rep(n, 64))>> \o t : op \in {23, 25}, n \in {0, 3, 5}, t \in {<<>>, <<TRUEOP>>} }
     \cup { <<NS1(op, v)>> : op \in {10, 11, 17, 19, 49, 50, 64}, v \in {VD(0), VD(5), VD(-1), VD(128), VD(-129), VD(70000), VX(<<>>), VX(<<0, 5>>), VX(Rep(255, 1)), VS(<<107>>)} }
     \cup { <<NWc(k, n)>> : k \in {VX(<<>>), VX(<<107>>), VX(Rep(255, 2)), VS(<<107, 49>>)}, n \in {0, 1, 255} }
     \cup { <<NP("p1", Rep(n, 7), st)>> : n \in {0, 1, 2, 255}, st \in {"sz"} }
@@ -114,6 +117,8 @@ Cases(z) ==
       [] Family = "operands" -> { [k |-> "asm", p |-> p] : p \in OperandProgs(0) }
       [] Family = "nopctx"   -> { [k |-> "asm", p |-> p] : p \in NopCtxProgs(0) }
       [] Family \in {"disasm2", "disasm3", "disasm4"} -> { [k |-> "dis", b |-> b] : b \in Strings(0) }
+      \* every byte string of length 3, one case per two-byte prefix (C12's quantifier, literally)
+      [] Family = "disasm3x" -> { [k |-> "dis3", a |-> a, b |-> b] : a \in Byte, b \in Byte }
       [] Family = "trace"    -> { [k |-> "t", i |-> i] : i \in 1..Len(TraceLog) }
 
 Init == c \in Cases(0)
@@ -140,12 +145,15 @@ Progress(code, pc) == pc >= Len(code) \/ LET k == InstrLen(code, pc) IN
                           k = -1 \/ (k >= 1 /\ pc + k <= Len(code) /\ Progress(code, pc + k))
 InvAsm == c.k # "asm" \/ ~EncodableSeq(c.p)
           \/ (RoundTrip(EncSeq(c.p)) /\ VMAgrees(c.p) /\ PushMinimal(c.p))
-InvDis == c.k # "dis" \/ (Progress(c.b, 0) /\ (Decodes(c.b) => EncSeq(Canon(c.b)) = c.b))
+InvDisOf(b) == Progress(b, 0) /\ (Decodes(b) => EncSeq(Canon(b)) = b)
+InvDis == (c.k # "dis" \/ InvDisOf(c.b)) /\ (c.k # "dis3" \/ \A x \in Byte : InvDisOf(<<c.a, c.b, x>>))
 
 Out == CASE c.k = "asm" -> [k |-> "asm", toks |-> ToksSeq(c.p), ok |-> EncodableSeq(c.p),
                             bytes |-> IF EncodableSeq(c.p) THEN EncSeq(c.p) ELSE <<>>,
                             listing |-> IF EncodableSeq(c.p) THEN Listing(EncSeq(c.p)) ELSE <<>>]
          [] c.k = "dis" -> [k |-> "dis", b |-> c.b, ok |-> Decodes(c.b), listing |-> IF Decodes(c.b) THEN Listing(c.b) ELSE <<>>]
+         \* oks[x + 1] = 1 iff <<a, b, x>> decodes (the listings of these strings are covered by the class families)
+         [] c.k = "dis3" -> [k |-> "dis3", a |-> c.a, b |-> c.b, oks |-> [x \in 1..256 |-> IF Decodes(<<c.a, c.b, x - 1>>) THEN 1 ELSE 0]]
 EmitCase == c.k = "t" \/ ~Emit \/ PrintT(ToJson(Out))
 
 \* ---- trace cases --------------------------------------------------------------------------
